@@ -74,6 +74,7 @@ class SLazy:
         self.alts = alts  # list of Type
         self.name = name
         self.resolved = None
+        self.defer = False   # True: stays unresolved while it is only passed around (e.g. used as a dict key that covers all alternatives)
 
 
 class SMarkup(SV):
